@@ -841,7 +841,7 @@ static void c_solve_exact (void)
 	int k = nslot ('p'), algo = nalgo (), bk = nbslot (), rc, status = -1, nc, nr;
 	const char *fl = more ()? nt () : "xy";
 	mpq_t *x = 0, *y = 0;
-	if (!P[k]) die ("solve_exact on empty slot");
+	if (!P[k]) { qfree (x, 0); BEGIN ("solve_exact"); ev_int ("rc", 99); ev_int ("null", 1); END (); return; }
 	nc = mpq_QSget_colcount (P[k]); nr = mpq_QSget_rowcount (P[k]);
 	if (strchr (fl, 'x')) x = qalloc (nc + nr);
 	if (strchr (fl, 'y')) y = qalloc (nr);
@@ -1003,7 +1003,7 @@ static void emit_logsign (mpq_QSprob p)
 static void tableau_common (int direct)
 {
 	int k = nslot ('p'), nc, nr, i, rc; int *order; mpq_t *bi, *tr;
-	if (!P[k]) die ("tableau on empty slot");
+	if (!P[k]) { BEGIN (direct ? "tableau_direct" : "tableau"); ev_int ("rc", 99); ev_int ("null", 1); END (); return; }
 	nc = mpq_QSget_colcount (P[k]); nr = mpq_QSget_rowcount (P[k]);
 	order = malloc ((nr + 1) * sizeof (int)); bi = qalloc (nr); tr = qalloc (nc + nr);
 	BEGIN (direct ? "tableau_direct" : "tableau");
@@ -1119,8 +1119,8 @@ static void put_d (double d) { fprintf (EV, "\"%a\"", d); }
 static void c_copy_dbl (void)
 {
 	int k = nslot ('p'), j, i, nc, nr; dbl_QSdata *q;
-	if (!P[k]) die ("copy_dbl on empty slot");
 	BEGIN ("copy_dbl");
+	if (!P[k]) { ev_int ("rc", 99); ev_int ("null", 1); END (); return; }
 	q = QScopy_prob_mpq_dbl (P[k], "dblcopy");
 	ev_int ("rc", q ? 0 : 1);
 	if (q)
@@ -1177,8 +1177,8 @@ static void put_f (mpf_t f)
 static void c_copy_mpf (void)
 {
 	int k = nslot ('p'), prec = ni (), j, i, nc, nr; mpf_QSdata *q;
-	if (!P[k]) die ("copy_mpf on empty slot");
 	BEGIN ("copy_mpf");
+	if (!P[k]) { ev_int ("rc", 99); ev_int ("null", 1); END (); return; }
 	QSexact_set_precision (prec);
 	q = QScopy_prob_mpq_mpf (P[k], "mpfcopy");
 	ev_int ("rc", q ? 0 : 1); ev_int ("prec", prec);
@@ -1229,8 +1229,8 @@ static void c_free (void) { int k = nslot ('p'); BEGIN ("free"); free_slot_p (k)
 static void c_storecheck (void)
 {
 	int k = nslot ('p'); mpq_ILLlpdata *lp; const char *why = 0; int j, i, ncols, nrows, nstruct; long tot = 0;
-	if (!P[k]) die ("storecheck on empty slot");
 	BEGIN ("storecheck");
+	if (!P[k]) { ev_int ("rc", 99); ev_int ("null", 1); END (); return; }
 	lp = P[k]->qslp; ncols = lp->ncols; nrows = lp->nrows; nstruct = lp->nstruct;
 	if (ncols != nstruct + nrows) why = "ncols != nstruct+nrows";
 	if (!why && lp->A.matcols != ncols) why = "A.matcols != ncols";
